@@ -448,8 +448,17 @@ REAL__xer_body_decode(const asn_TYPE_descriptor_t *td, void *sptr,
 	b[chunk_size] = 0;	/* nul-terminate */
 
 	value = strtod(b, &endptr);
+	if(endptr != b) {
+		/* Nothing but white space may follow the numeral */
+		while(*endptr == 0x20 || *endptr == 0x09
+			|| *endptr == 0x0a || *endptr == 0x0d)
+			endptr++;
+	}
+	if(endptr == b || *endptr != '\0') {
+		FREEMEM(b);
+		return XPBD_BROKEN_ENCODING;
+	}
 	FREEMEM(b);
-	if(endptr == b) return XPBD_BROKEN_ENCODING;
 
 	if(asn_double2REAL(st, value))
 		return XPBD_SYSTEM_FAILURE;
